@@ -15,7 +15,10 @@ func init() {
 // prgRun runs an op sequence on the real PRG; ops use the protocol syntax of the Lean driver.
 func prgRun(seed, cust []byte, ops []string) string {
 	return guard(func() string {
-		g, err := random.NewChacha20PRG(seed, cust)
+		sb, cb := cloneOrNil(seed), cloneOrNil(cust)
+		g, err := random.NewChacha20PRG(sb, cb)
+		wipe(sb) // the seed and customizer slices are the caller's
+		wipe(cb)
 		if err != nil {
 			return "err"
 		}
@@ -38,9 +41,15 @@ func prgOps(g random.Rand, ops []string) string {
 			case op == "st":
 				return hx(g.Store())
 			case op == "rs":
-				g2, err := random.RestoreChacha20PRG(g.Store())
+				st := g.Store()
+				g2, err := random.RestoreChacha20PRG(st)
 				if err != nil {
 					return "err"
+				}
+				// the state slice is the caller's: it is wiped right after the restore (a generator that kept
+				// references into it would hand out a wrong seed at its next Store)
+				for j := range st {
+					st[j] ^= 0xFF
 				}
 				g = g2
 				return "ok"
@@ -207,6 +216,9 @@ func genC14(c *Ctx) {
 			g2, err := random.RestoreChacha20PRG(snap)
 			if err != nil {
 				return out + " err"
+			}
+			for j := range snap { // the caller re-uses the slice it restored from
+				snap[j] = byte(j)
 			}
 			return out + " ok" + prgOps(g2, after)
 		})
